@@ -60,11 +60,25 @@ def b_is(item, k):
     return item.b == k
 
 
-def make_items(spec):
+@dataclass(repr=False)
+class FalsyItem(Item):
+    """an entity whose Python truth value is False unless b == 1 (like an empty container)"""
+
+    def __bool__(self):
+        return self.b == 1
+
+
+@dataclass(repr=False)
+class FalsySubItem(SubItem):
+    def __bool__(self):
+        return self.b == 1
+
+
+def make_items(spec, falsy=False):
     """spec: list of (name, a, b, subclass?) -> fresh objects with derived flag/tags/vals and a cyclic nxt chain."""
     items = []
     for name, a, b, sub in spec:
-        cls = SubItem if sub else Item
+        cls = (FalsySubItem if sub else FalsyItem) if falsy else (SubItem if sub else Item)
         items.append(cls(name=name, a=a, b=b, flag=bool(b), tags=[a] * b + ([a + b] if a else []), vals=[a + 2 * b, 7]))
     for i, it in enumerate(items):
         it.nxt = items[(i + 1) % len(items)] if items else None
